@@ -1426,3 +1426,153 @@ def family_concat_xz(ctx, j, quick, rnd, pool):
     ctx.add("behaviours_replayed", len(uniq))
     ctx.add("replay_divergences", ndiv)
     return scns, res
+
+
+def family_concat_lz(ctx, j, quick, rnd, pool):
+    """C12, LZIP: concatenated files / multi-member files decode to the concatenation, with LZIPReader and LZIPReaderMT."""
+    t0 = time.time()
+    c = lz_consts(Dicts="{4096,5000}", LimitOpts="{0,3000}", WriteSizes="{2500,7000}" if quick else "{1,2500,7000}", MaxBytes="9500",
+                  MaxCalls="2", MaxFiles="2" if quick else "3", MaxMembers="5", Fars="{FALSE}")
+    r = lz_model(c, ["TypeOK", "XWellFormed", "XScanOrder", "XRoundTrip", "ExportL"], 4, 900, True)
+    ctx.note_tlc("LzipContainer concat design (as built)", r)
+    log(f"[tlc] LzipContainer concat: {r}")
+    if not r.ok:
+        raise ToolError(f"LzipContainer concat design: TLC reports {r.violated} (as-built design should satisfy it)")
+    ctx.require_coverage(r, ["Finish", "StartRead", "RMember", "RDone"], "LzipContainer concat")
+    exported = [x for x in printed_json(r, "scn")]
+    if len(exported) < 20:
+        raise ToolError(f"LZIP concat export produced only {len(exported)} behaviours")
+    cap = 150 if quick else 2000
+    multi = [x for x in exported if x["hist"]]
+    single = [x for x in exported if not x["hist"]]
+    if len(multi) > cap:
+        multi = rnd.sample(multi, cap)
+    if len(single) > cap // 3:
+        single = rnd.sample(single, cap // 3)
+    scns = []
+    for i, a in enumerate(multi + single):
+        files = list(a["hist"]) + [{"dict": a["dict"], "limit": a["limit"], "calls": a["calls"]}]
+        parts = []
+        for f in files:
+            writes = [n for (op, n) in f["calls"] if op == "w"]
+            opt = {"preset": rnd.choice([0, 1, 6]), "dict": f["dict"]}
+            if f["limit"]:
+                opt["limit"] = f["limit"]
+            parts.append({"k": "lz", "src": "ours", "opt": opt, "n": sum(writes), "writes": writes,
+                          "class": rnd.choice(["text", "seq", "lowent", "zeros", "mixed"]), "seed": rnd.getrandbits(32)})
+        for mt in (False, True):
+            scns.append({"id": f"lzcat-{i}-{'mt' if mt else 'st'}", "fam": "read", "fmt": "lz", "mt": mt, "parts": parts, "seed": rnd.getrandbits(32),
+                         "reads": rnd.choice([[4096], [1], [7, 4096, 3], [65536]]), "want_recs": False,
+                         "abstract": {"files": len(files), "members": len(a["allmembers"]), "out": a["out"]}})
+    res = run_scenarios(scns)
+    log(f"[impl] read/lz concat: {len(scns)} assembled inputs decoded by LZIPReader / LZIPReaderMT in {time.time()-t0:.1f}s")
+    ndiv = 0
+    for s, r1 in zip(scns, res):
+        j.nruns += 1
+        if r1["outcome"] in ("build_err", "panic", "bad_family"):
+            raise ToolError(f"read scenario {s['id']}: {r1['outcome']}: {r1.get('err')}")
+        a = s["abstract"]
+        base = {"family": "read_lz", "mt": s["mt"], "files": a["files"]}
+        j.classes.add(("read_lz", s["mt"], a["files"], a["members"], r1["outcome"]))
+        if not (r1["outcome"] == "eof" and r1["matched"] == a["files"]):
+            j.violation("C12", f"{'LZIPReaderMT' if s['mt'] else 'LZIPReader'} on {a['files']} concatenated files ({a['members']} members): "
+                               f"{r1['err'] or ('decoded %d bytes' % r1['out_len'])}", dict(base, outcome="concat"), {"scenario": strip(s), "source": "tlc-scn"})
+        if s["mt"] and r1["outcome"] == "eof" and r1["out_len"] > 0 and r1["member_count"] != a["members"]:
+            j.violation("C18", f"LZIPReaderMT::member_count() = {r1['member_count']} for a file of {a['members']} members", dict(base, outcome="member_count"),
+                        {"scenario": strip(s), "source": "tlc-scn"})
+        if r1["outcome"] == "eof" and r1["out_len"] != a["out"]:
+            ndiv += 1
+            if ndiv <= 3:
+                ctx.note_drift(f"read {s['id']}: {r1['out_len']} bytes decoded, the model predicts {a['out']}")
+        if not r1["ref"]["ok"]:
+            raise ToolError(f"liblzma rejects the concatenated .lz input of {s['id']}: {r1['ref']['err']}")
+    ctx.add("behaviours_replayed", len(multi) + len(single))
+    ctx.add("replay_divergences", ndiv)
+    return scns, res
+
+
+# --------------------------------------------------------------------------- readers consume exactly their stream (C16)
+def judge_consume(j, s, r, predicted=None, source="grid"):
+    j.nruns += 1
+    if r["outcome"] in ("build_err", "panic", "bad_family"):
+        raise ToolError(f"read scenario {s['id']}: {r['outcome']}: {r.get('err')}")
+    fmt = s["fmt"]
+    first = s["parts"][0]
+    trailing = s.get("trailing") or "none"
+    base = {"family": "read_" + fmt, "src": first.get("src"), "trailing": trailing,
+            "end": ("declared" if first.get("opt", {}).get("expected") is not None else "marker") if fmt == "lzma" else "n/a"}
+    rep = {"scenario": strip(s), "source": source}
+    end0 = r["ends"][0]
+    j.classes.add(("consume", fmt, base["src"], trailing, base["end"], tuple(s.get("reads") or [])[:2], first.get("class"), r["outcome"]))
+    # the reference must agree that the first part is a complete valid stream of exactly that length
+    if not (r["ref"]["ok"] and r["ref"]["total_in"] == end0):
+        raise ToolError(f"liblzma does not see a valid {fmt} stream of {end0} bytes at the start of {s['id']}: {r['ref']}")
+    if not (r["outcome"] == "eof" and r["matched"] >= 1 and r["out_len"] == r["content_lens"][0]):
+        j.violation("C16", f"{fmt} reader on a valid stream followed by {trailing} bytes: {r['err'] or ('decoded %d of %d bytes' % (r['out_len'], r['content_lens'][0]))}",
+                    dict(base, outcome="needs_or_misreads_trailing"), rep)
+    elif r["consumed"] != end0:
+        j.violation("C16", f"{fmt} reader ({base['src']}, {base['end']}) returned end of stream with the source at offset {r['consumed']}; the stream is "
+                           f"{end0} bytes long and is followed by {r['input_len'] - end0} {trailing} bytes", dict(base, outcome="consumed"), rep)
+    return None
+
+
+def family_consume(ctx, j, quick, rnd, pool):
+    t0 = time.time()
+    scns = []
+    n_per = 6 if quick else 40
+    shapes = []
+    for fmt in ("lzma", "lzma2", "xz"):
+        for src in ("ours", "ref"):
+            for _ in range(n_per):
+                n = rnd.choice([0, 1, 2, 17, 300, 4096, 5000, 20000, 70000] + ([] if quick else [300000, 1 << 20]))
+                cls = rnd.choice(["text", "seq", "random", "mixed", "zeros", "lowent", "periodic"])
+                dict_size = rnd.choice([4096, 65536, 1 << 20])
+                if dict_size < 65536 and cls in ("random", "mixed") and fmt != "lzma":
+                    dict_size = 65536       # D1 (small dictionary + incompressible data) belongs to another group
+                opt = {"preset": rnd.choice([0, 1, 3, 6, 9]), "dict": dict_size}
+                p = {"k": fmt, "src": src, "opt": opt, "n": n, "class": cls, "seed": rnd.getrandbits(32)}
+                if fmt == "lzma":
+                    opt["lc"], opt["lp"], opt["pb"] = rnd.choice([(3, 0, 2), (0, 0, 0), (4, 0, 2), (0, 4, 4), (2, 2, 1), (8, 0, 0)])
+                    if src == "ours" and rnd.random() < 0.5:
+                        opt["expected"] = n      # declared size, no end marker
+                elif fmt == "lzma2":
+                    if src == "ours" and rnd.random() < 0.5:
+                        opt["limit"] = dict_size
+                    if src == "ref" and n > 10 and rnd.random() < 0.5:
+                        p["cuts"] = sorted(rnd.sample(range(1, n), min(2, n - 1)))
+                else:
+                    opt["check"] = rnd.choice(list(CHECK_ID))
+                    if src == "ours":
+                        if rnd.random() < 0.5:
+                            opt["limit"] = rnd.choice([4096, 8192])
+                        if n > 1:
+                            k = rnd.randint(1, n - 1)
+                            p["writes"] = [k, n - k]
+                    elif n > 10 and rnd.random() < 0.5:
+                        p["cuts"] = sorted(rnd.sample(range(1, n), min(2, n - 1)))
+                        if rnd.random() < 0.5:
+                            p["src"] = "forge"
+                            p["hc"], p["hu"] = rnd.random() < 0.7, rnd.random() < 0.7
+                shapes.append((fmt, p))
+    for i, (fmt, p) in enumerate(shapes):
+        for trailing in ("none", "zeros", "random", "stream"):
+            parts = [p]
+            if trailing == "zeros":
+                parts.append({"k": "zeros", "n": rnd.choice([1, 3, 4, 16, 100])})
+            elif trailing == "random":
+                parts.append({"k": "random", "n": rnd.choice([1, 5, 13, 100]), "seed": rnd.getrandbits(16)})
+            elif trailing == "stream":
+                q = dict(p, seed=rnd.getrandbits(32), n=rnd.choice([0, 100, 3000]))
+                q["opt"] = dict(p["opt"])
+                if "expected" in q["opt"]:
+                    q["opt"]["expected"] = q["n"]
+                q.pop("writes", None)
+                q.pop("cuts", None)
+                parts.append(q)
+            scns.append({"id": f"cons-{i}-{trailing}", "fam": "read", "fmt": fmt, "multi": False, "parts": parts, "seed": rnd.getrandbits(32),
+                         "reads": rnd.choice([[4096], [1], [7, 4096, 3], [65536], [2], [1000, 1]]), "trailing": trailing})
+    res = run_scenarios(scns)
+    log(f"[impl] consume: {len(scns)} valid streams (x trailing kinds x read sizes) read to end of stream in {time.time()-t0:.1f}s")
+    for s, r1 in zip(scns, res):
+        judge_consume(j, s, r1)
+    return scns, res
